@@ -1,5 +1,9 @@
 import HcipyVerif.Lemmas.FieldProg
 import HcipyVerif.Lemmas.FourierSwitch
+import HcipyVerif.Lemmas.FieldRef
+import HcipyVerif.Model.FourierConfig
+import HcipyVerif.Gen.FieldDispatch
+import HcipyVerif.Properties.C01
 
 /-!
 # C19 — results do not depend on the configured Field implementation (model level)
@@ -16,6 +20,7 @@ index arithmetic covers them); memory order in pickles and views are checked on 
 -/
 set_option linter.unusedSimpArgs false
 set_option linter.unusedVariables false
+set_option linter.unusedSectionVars false
 
 namespace HcipyVerif.C19
 open HcipyVerif.FieldProg
@@ -581,5 +586,773 @@ example : ∃ K : NftKern Nat Nat Nat, ∀ d x, K.apply (K.matrix d) x = K.direc
   ⟨⟨fun _ => 2, fun a x => a * x, fun _ x => 2 * x, fun _ r => r⟩, fun _ _ => rfl⟩
 
 end Fourier
+
+section FourierConfig
+open HcipyVerif.Fft HcipyVerif.FourierSwitch HcipyVerif.FourierSwitch.Spec HcipyVerif.FourierConfig Finset
+
+section abstract
+variable {K C : Type} [Field K] [Field C] {T E : K → C}
+
+/-! ### `emulate_fftshifts` -/
+
+/-- **`emulate_fftshifts` changes nothing, `forward`, one axis.**  For both values of the switch
+(`Cfg.emu`: `false` = `ifftshift`/`fftshift` around the FFT, `true` = the two phase multiplications) the
+modelled `FastFourierTransform.forward` returns the same output sample, for every input, every size
+`N ≤ M`, `Mo ≤ M`, every consistent grid.  Rests on `C01.fast_forward_eq_sum` (both pipelines evaluate
+the defining sum, which does not mention the switch). -/
+theorem fft_emulate_switch_independent (hT : IsChar T) (hE : IsChar E) (hper : ∀ n : ℤ, T (n : K) = 1)
+    (g : Cfg K C) (hN : g.N ≤ g.M) (hMo : g.Mo ≤ g.M) (hcons : g.dT * (g.M : K) * g.δ = 1)
+    (e1 e2 : Bool) (f : ℕ → C) (k : ℕ) (hk : k < g.Mo) :
+    fastForward T E { g with emu := e1 } f k = fastForward T E { g with emu := e2 } f k := by
+  rw [C01.fast_forward_eq_sum hT hE hper { g with emu := e1 } hN hMo hcons f k hk,
+    C01.fast_forward_eq_sum hT hE hper { g with emu := e2 } hN hMo hcons f k hk]
+  rfl
+
+/-- satisfiability of the hypothesis bundle (`N = 2, M = 4, Mo = 3, δ = dT = 1/2`, `Complex.exp`) -/
+example : ∃ (T E : ℝ → ℂ) (g : Cfg ℝ ℂ) (k : ℕ), IsChar T ∧ IsChar E ∧ (∀ n : ℤ, T (n : ℝ) = 1) ∧
+    g.N ≤ g.M ∧ g.Mo ≤ g.M ∧ g.dT * (g.M : ℝ) * g.δ = 1 ∧ k < g.Mo :=
+  ⟨expT, expE, { N := 2, M := 4, Mo := 3, δ := 1 / 2, z := 0, dT := 1 / 2, s := 0, w := 1, emu := false },
+    2, expT_isChar, expE_isChar, expT_period, by norm_num, by norm_num, by norm_num, by norm_num⟩
+
+/-- **`emulate_fftshifts` changes nothing, `backward`, one axis** (`wOut = Δ/(2π)` is only the
+witness that `M·w` is invertible; it does not occur in the conclusion).  Rests on
+`C01.fast_backward_eq_sum`. -/
+theorem fft_emulate_switch_independent_backward (hT : IsChar T) (hE : IsChar E)
+    (hper : ∀ n : ℤ, T (n : K) = 1)
+    (g : Cfg K C) (hN : g.N ≤ g.M) (hMo : g.Mo ≤ g.M) (hcons : g.dT * (g.M : K) * g.δ = 1)
+    (wOut : C) (hw : wOut * (g.M : C) * g.w = 1)
+    (e1 e2 : Bool) (F : ℕ → C) (j : ℕ) (hj : j < g.N) :
+    fastBackward T E { g with emu := e1 } F j = fastBackward T E { g with emu := e2 } F j := by
+  rw [C01.fast_backward_eq_sum hT hE hper { g with emu := e1 } hN hMo hcons wOut hw F j hj,
+    C01.fast_backward_eq_sum hT hE hper { g with emu := e2 } hN hMo hcons wOut hw F j hj]
+  rfl
+
+example : ∃ (T E : ℝ → ℂ) (g : Cfg ℝ ℂ) (wOut : ℂ) (j : ℕ), IsChar T ∧ IsChar E ∧
+    (∀ n : ℤ, T (n : ℝ) = 1) ∧ g.N ≤ g.M ∧ g.Mo ≤ g.M ∧ g.dT * (g.M : ℝ) * g.δ = 1 ∧
+    wOut * (g.M : ℂ) * g.w = 1 ∧ j < g.N :=
+  ⟨expT, expE, { N := 2, M := 4, Mo := 3, δ := 1 / 2, z := 0, dT := 1 / 2, s := 0, w := 1, emu := false },
+    1 / 4, 1, expT_isChar, expE_isChar, expT_period, by norm_num, by norm_num, by norm_num,
+    by norm_num, by norm_num⟩
+
+/-- the two settings by name: the emulated-shift pipeline (`core false`, phase multipliers) equals
+the native-shift pipeline (`core true`: pad → `ifftshift` → DFT → `fftshift` → crop), forward and
+backward -/
+theorem fft_emulated_eq_native (hT : IsChar T) (hE : IsChar E) (hper : ∀ n : ℤ, T (n : K) = 1)
+    (g : Cfg K C) (hN : g.N ≤ g.M) (hMo : g.Mo ≤ g.M) (hcons : g.dT * (g.M : K) * g.δ = 1)
+    (wOut : C) (hw : wOut * (g.M : C) * g.w = 1) :
+    (∀ f k, k < g.Mo →
+      fastForward T E { g with emu := true } f k = fastForward T E { g with emu := false } f k) ∧
+    (∀ F j, j < g.N →
+      fastBackward T E { g with emu := true } F j = fastBackward T E { g with emu := false } F j) :=
+  ⟨fun f k hk => fft_emulate_switch_independent hT hE hper g hN hMo hcons true false f k hk,
+    fun F j hj => fft_emulate_switch_independent_backward hT hE hper g hN hMo hcons wOut hw true false F j hj⟩
+
+example : ∃ (T E : ℝ → ℂ) (g : Cfg ℝ ℂ) (wOut : ℂ), IsChar T ∧ IsChar E ∧
+    (∀ n : ℤ, T (n : ℝ) = 1) ∧ g.N ≤ g.M ∧ g.Mo ≤ g.M ∧ g.dT * (g.M : ℝ) * g.δ = 1 ∧
+    wOut * (g.M : ℂ) * g.w = 1 :=
+  ⟨expT, expE, { N := 2, M := 4, Mo := 3, δ := 1 / 2, z := 0, dT := 1 / 2, s := 0, w := 1, emu := false },
+    1 / 4, expT_isChar, expE_isChar, expT_period, by norm_num, by norm_num, by norm_num, by norm_num⟩
+
+/-- **`emulate_fftshifts`, the literal 2-D array program** (`fastForward2`/`fastBackward2`: one 2-D
+pad / shift / `fftn` / crop, 2-D multiplier arrays; the switch is global, so both axes carry the same
+value).  Non-square sizes, per-axis q / fov / shift.  Rests on `C01.fast_forward_eq_sum_2d`,
+`C01.fast_backward_eq_sum_2d`. -/
+theorem fft_emulate_switch_independent_2d (hT : IsChar T) (hE : IsChar E)
+    (hper : ∀ n : ℤ, T (n : K) = 1) (gy gx : Cfg K C)
+    (hNy : gy.N ≤ gy.M) (hMoy : gy.Mo ≤ gy.M) (hcy : gy.dT * (gy.M : K) * gy.δ = 1)
+    (hNx : gx.N ≤ gx.M) (hMox : gx.Mo ≤ gx.M) (hcx : gx.dT * (gx.M : K) * gx.δ = 1)
+    (woy wox : C) (hwy : woy * (gy.M : C) * gy.w = 1) (hwx : wox * (gx.M : C) * gx.w = 1)
+    (e1 e2 : Bool) :
+    (∀ f ky kx, ky < gy.Mo → kx < gx.Mo →
+      fastForward2 T E { gy with emu := e1 } { gx with emu := e1 } f ky kx
+        = fastForward2 T E { gy with emu := e2 } { gx with emu := e2 } f ky kx) ∧
+    (∀ F jy jx, jy < gy.N → jx < gx.N →
+      fastBackward2 T E { gy with emu := e1 } { gx with emu := e1 } F jy jx
+        = fastBackward2 T E { gy with emu := e2 } { gx with emu := e2 } F jy jx) := by
+  constructor
+  · intro f ky kx hky hkx
+    rw [C01.fast_forward_eq_sum_2d hT hE hper { gy with emu := e1 } { gx with emu := e1 } rfl
+        hNy hMoy hcy hNx hMox hcx f ky kx hky hkx,
+      C01.fast_forward_eq_sum_2d hT hE hper { gy with emu := e2 } { gx with emu := e2 } rfl
+        hNy hMoy hcy hNx hMox hcx f ky kx hky hkx]
+    rfl
+  · intro F jy jx hjy hjx
+    rw [C01.fast_backward_eq_sum_2d hT hE hper { gy with emu := e1 } { gx with emu := e1 } rfl
+        hNy hMoy hcy hNx hMox hcx woy wox hwy hwx F jy jx hjy hjx,
+      C01.fast_backward_eq_sum_2d hT hE hper { gy with emu := e2 } { gx with emu := e2 } rfl
+        hNy hMoy hcy hNx hMox hcx woy wox hwy hwx F jy jx hjy hjx]
+    rfl
+
+/-- satisfiability: a non-square pair of axes (`2→4→3` and `3→6→6`) -/
+example : ∃ (T E : ℝ → ℂ) (gy gx : Cfg ℝ ℂ) (woy wox : ℂ), IsChar T ∧ IsChar E ∧
+    (∀ n : ℤ, T (n : ℝ) = 1) ∧ gy.N ≤ gy.M ∧ gy.Mo ≤ gy.M ∧ gy.dT * (gy.M : ℝ) * gy.δ = 1 ∧
+    gx.N ≤ gx.M ∧ gx.Mo ≤ gx.M ∧ gx.dT * (gx.M : ℝ) * gx.δ = 1 ∧
+    woy * (gy.M : ℂ) * gy.w = 1 ∧ wox * (gx.M : ℂ) * gx.w = 1 :=
+  ⟨expT, expE,
+    { N := 2, M := 4, Mo := 3, δ := 1 / 2, z := 0, dT := 1 / 2, s := 0, w := 1, emu := false },
+    { N := 3, M := 6, Mo := 6, δ := 1 / 3, z := -1, dT := 1 / 2, s := 1, w := 1, emu := false },
+    1 / 4, 1 / 6, expT_isChar, expE_isChar, expT_period, by norm_num, by norm_num, by norm_num,
+    by norm_num, by norm_num, by norm_num, by norm_num, by norm_num⟩
+
+/-- **`emulate_fftshifts`, the literal 3-D array program** (`fastForward3`/`fastBackward3`), the same statement for three
+axes.  Rests on `C01.fast_forward_eq_sum_3d`, `C01.fast_backward_eq_sum_3d`. -/
+theorem fft_emulate_switch_independent_3d (hT : IsChar T) (hE : IsChar E)
+    (hper : ∀ n : ℤ, T (n : K) = 1) (gz gy gx : Cfg K C)
+    (hNz : gz.N ≤ gz.M) (hMoz : gz.Mo ≤ gz.M) (hcz : gz.dT * (gz.M : K) * gz.δ = 1)
+    (hNy : gy.N ≤ gy.M) (hMoy : gy.Mo ≤ gy.M) (hcy : gy.dT * (gy.M : K) * gy.δ = 1)
+    (hNx : gx.N ≤ gx.M) (hMox : gx.Mo ≤ gx.M) (hcx : gx.dT * (gx.M : K) * gx.δ = 1)
+    (wz wy wx : C) (hwz : wz * (gz.M : C) * gz.w = 1) (hwy : wy * (gy.M : C) * gy.w = 1)
+    (hwx : wx * (gx.M : C) * gx.w = 1) (e1 e2 : Bool) :
+    (∀ f kz ky kx, kz < gz.Mo → ky < gy.Mo → kx < gx.Mo →
+      fastForward3 T E { gz with emu := e1 } { gy with emu := e1 } { gx with emu := e1 } f kz ky kx
+        = fastForward3 T E { gz with emu := e2 } { gy with emu := e2 } { gx with emu := e2 } f kz ky kx) ∧
+    (∀ F jz jy jx, jz < gz.N → jy < gy.N → jx < gx.N →
+      fastBackward3 T E { gz with emu := e1 } { gy with emu := e1 } { gx with emu := e1 } F jz jy jx
+        = fastBackward3 T E { gz with emu := e2 } { gy with emu := e2 } { gx with emu := e2 } F jz jy jx) := by
+  constructor
+  · intro f kz ky kx hkz hky hkx
+    rw [C01.fast_forward_eq_sum_3d hT hE hper { gz with emu := e1 } { gy with emu := e1 } { gx with emu := e1 } rfl rfl
+        hNz hMoz hcz hNy hMoy hcy hNx hMox hcx f kz ky kx hkz hky hkx,
+      C01.fast_forward_eq_sum_3d hT hE hper { gz with emu := e2 } { gy with emu := e2 } { gx with emu := e2 } rfl rfl
+        hNz hMoz hcz hNy hMoy hcy hNx hMox hcx f kz ky kx hkz hky hkx]
+    rfl
+  · intro F jz jy jx hjz hjy hjx
+    rw [C01.fast_backward_eq_sum_3d hT hE hper { gz with emu := e1 } { gy with emu := e1 } { gx with emu := e1 } rfl rfl
+        hNz hMoz hcz hNy hMoy hcy hNx hMox hcx wz wy wx hwz hwy hwx F jz jy jx hjz hjy hjx,
+      C01.fast_backward_eq_sum_3d hT hE hper { gz with emu := e2 } { gy with emu := e2 } { gx with emu := e2 } rfl rfl
+        hNz hMoz hcz hNy hMoy hcy hNx hMox hcx wz wy wx hwz hwy hwx F jz jy jx hjz hjy hjx]
+    rfl
+
+/-- satisfiability: three different axes (`2→4→3`, `3→6→6`, `1→2→2`) -/
+example : ∃ (T E : ℝ → ℂ) (gz gy gx : Cfg ℝ ℂ) (wz wy wx : ℂ), IsChar T ∧ IsChar E ∧
+    (∀ n : ℤ, T (n : ℝ) = 1) ∧ gz.N ≤ gz.M ∧ gz.Mo ≤ gz.M ∧ gz.dT * (gz.M : ℝ) * gz.δ = 1 ∧
+    gy.N ≤ gy.M ∧ gy.Mo ≤ gy.M ∧ gy.dT * (gy.M : ℝ) * gy.δ = 1 ∧
+    gx.N ≤ gx.M ∧ gx.Mo ≤ gx.M ∧ gx.dT * (gx.M : ℝ) * gx.δ = 1 ∧
+    wz * (gz.M : ℂ) * gz.w = 1 ∧ wy * (gy.M : ℂ) * gy.w = 1 ∧ wx * (gx.M : ℂ) * gx.w = 1 :=
+  ⟨expT, expE,
+    { N := 1, M := 2, Mo := 2, δ := 1, z := 0, dT := 1 / 2, s := 0, w := 1, emu := false },
+    { N := 2, M := 4, Mo := 3, δ := 1 / 2, z := 0, dT := 1 / 2, s := 0, w := 1, emu := false },
+    { N := 3, M := 6, Mo := 6, δ := 1 / 3, z := -1, dT := 1 / 2, s := 1, w := 1, emu := false },
+    1 / 2, 1 / 4, 1 / 6, expT_isChar, expE_isChar, expT_period, by norm_num, by norm_num, by norm_num,
+    by norm_num, by norm_num, by norm_num, by norm_num, by norm_num, by norm_num, by norm_num, by norm_num, by norm_num⟩
+
+/-- **`emulate_fftshifts`, any number of axes** (the iterated pipeline `fastForwardN`, which C01 proves
+equal to the literal array program for 2 and 3 axes): setting the switch on every axis of the list to
+`e1` or to `e2` gives the same output sample.  Induction over the axes with
+`fft_emulate_switch_independent` (i.e. `C01.fast_forward_eq_sum`) on each. -/
+theorem fft_emulate_switch_independent_nd (hT : IsChar T) (hE : IsChar E)
+    (hper : ∀ n : ℤ, T (n : K) = 1) (e1 e2 : Bool) (gs : List (Cfg K C))
+    (hgs : ∀ g ∈ gs, g.N ≤ g.M ∧ g.Mo ≤ g.M ∧ g.dT * (g.M : K) * g.δ = 1)
+    (f : List ℕ → C) (ks : List ℕ) (hks : List.Forall₂ (fun k g => k < g.Mo) ks gs) :
+    fastForwardN T E (gs.map fun g => { g with emu := e1 }) f ks
+      = fastForwardN T E (gs.map fun g => { g with emu := e2 }) f ks := by
+  induction gs generalizing f ks with
+  | nil => rfl
+  | cons g gs ih =>
+    cases hks with
+    | cons hk hks' =>
+      rename_i k ks'
+      obtain ⟨hN, hMo, hc⟩ := hgs g (by simp)
+      have hrest : ∀ g' ∈ gs, g'.N ≤ g'.M ∧ g'.Mo ≤ g'.M ∧ g'.dT * (g'.M : K) * g'.δ = 1 :=
+        fun g' hg' => hgs g' (by simp [hg'])
+      simp only [List.map_cons, fastForwardN]
+      rw [show (fun i => fastForwardN T E (gs.map fun g => { g with emu := e1 })
+              (fun idx => f (i :: idx)) ks')
+            = fun i => fastForwardN T E (gs.map fun g => { g with emu := e2 })
+              (fun idx => f (i :: idx)) ks' from
+          funext fun i => ih hrest _ _ hks']
+      exact fft_emulate_switch_independent hT hE hper g hN hMo hc e1 e2 _ k hk
+
+/-- the same for `backward` on `n` axes (`wOut g` witnesses that `M·w` is invertible on each axis) -/
+theorem fft_emulate_switch_independent_nd_backward (hT : IsChar T) (hE : IsChar E)
+    (hper : ∀ n : ℤ, T (n : K) = 1) (e1 e2 : Bool) (wOut : Cfg K C → C) (gs : List (Cfg K C))
+    (hgs : ∀ g ∈ gs, g.N ≤ g.M ∧ g.Mo ≤ g.M ∧ g.dT * (g.M : K) * g.δ = 1 ∧
+      wOut g * (g.M : C) * g.w = 1)
+    (F : List ℕ → C) (js : List ℕ) (hjs : List.Forall₂ (fun j g => j < g.N) js gs) :
+    fastBackwardN T E (gs.map fun g => { g with emu := e1 }) F js
+      = fastBackwardN T E (gs.map fun g => { g with emu := e2 }) F js := by
+  induction gs generalizing F js with
+  | nil => rfl
+  | cons g gs ih =>
+    cases hjs with
+    | cons hj hjs' =>
+      rename_i j js'
+      obtain ⟨hN, hMo, hc, hw⟩ := hgs g (by simp)
+      have hrest : ∀ g' ∈ gs, g'.N ≤ g'.M ∧ g'.Mo ≤ g'.M ∧ g'.dT * (g'.M : K) * g'.δ = 1 ∧
+          wOut g' * (g'.M : C) * g'.w = 1 :=
+        fun g' hg' => hgs g' (by simp [hg'])
+      simp only [List.map_cons, fastBackwardN]
+      rw [show (fun k => fastBackwardN T E (gs.map fun g => { g with emu := e1 })
+              (fun idx => F (k :: idx)) js')
+            = fun k => fastBackwardN T E (gs.map fun g => { g with emu := e2 })
+              (fun idx => F (k :: idx)) js' from
+          funext fun k => ih hrest _ _ hjs']
+      exact fft_emulate_switch_independent_backward hT hE hper g hN hMo hc (wOut g) hw e1 e2 _ j hj
+
+/-- satisfiability of both `n`-axis bundles: the two axes of the 2-D example, output index `[2, 5]`,
+input index `[1, 2]` -/
+example : ∃ (T E : ℝ → ℂ) (wOut : Cfg ℝ ℂ → ℂ) (gs : List (Cfg ℝ ℂ)) (ks js : List ℕ),
+    IsChar T ∧ IsChar E ∧ (∀ n : ℤ, T (n : ℝ) = 1) ∧
+    (∀ g ∈ gs, g.N ≤ g.M ∧ g.Mo ≤ g.M ∧ g.dT * (g.M : ℝ) * g.δ = 1 ∧ wOut g * (g.M : ℂ) * g.w = 1) ∧
+    List.Forall₂ (fun k g => k < g.Mo) ks gs ∧ List.Forall₂ (fun j g => j < g.N) js gs :=
+  ⟨expT, expE, fun g => 1 / (g.M : ℂ),
+    [{ N := 2, M := 4, Mo := 3, δ := 1 / 2, z := 0, dT := 1 / 2, s := 0, w := 1, emu := false },
+     { N := 3, M := 6, Mo := 6, δ := 1 / 3, z := -1, dT := 1 / 2, s := 1, w := 1, emu := false }],
+    [2, 5], [1, 2], expT_isChar, expE_isChar, expT_period, by simp; norm_num,
+    List.Forall₂.cons (by norm_num) (List.Forall₂.cons (by norm_num) List.Forall₂.nil),
+    List.Forall₂.cons (by norm_num) (List.Forall₂.cons (by norm_num) List.Forall₂.nil)⟩
+
+/-! ### `MatrixFourierTransform`: `precompute_matrices`, `allocate_intermediate`, the weights branch -/
+
+/-- **The switch model of C19 runs C01's transform**: a fresh `MatrixFourierTransform` object with both
+switches off, over the concrete kernel `mftKern` (Model/FourierConfig.lean: `mftM1`/`mftM2`, the two
+`gemm`s), *is* C01's `mftForward` / `mftBackward` — by unfolding, for both weight branches. -/
+theorem mftKern_fresh (E : K → C) (cj : C → C) (Nx Ny Nu Nv : ℕ) (x y u v : ℕ → K)
+    (w wOut : Weights C) (d : Dir) (p : CPrec) (f : ℕ → C) :
+    mftFresh (mftKern E cj Nx Ny Nu Nv x y u v w wOut) d p f =
+      match d with
+      | .fwd => mftForward E Nx Ny Nu Nv x y u v w f
+      | .bwd => mftBackward E cj Nx Ny Nu Nv x y u v wOut f := by
+  rw [mftFresh, (mftCall_spec _ false false {} (keyed_empty _) d p f).1]
+  cases d
+  · cases w <;> rfl
+  · cases wOut <;> rfl
+
+/-- **C19's `mft_switch_independent` at C01's kernel**: for every call script on one reused
+`MatrixFourierTransform` object (any mixture of forward / backward, complex64 / complex128) and every
+setting of `precompute_matrices` (`pre`) and `allocate_intermediate` (`alloc`), call number `i` returns
+C01's `mftForward` resp. `mftBackward` of its own input.  Rests on `mft_switch_independent` (this file)
+and `mftKern_fresh`. -/
+theorem mft_switch_independent_concrete (E : K → C) (cj : C → C) (Nx Ny Nu Nv : ℕ)
+    (x y u v : ℕ → K) (w wOut : Weights C) (pre alloc : Bool)
+    (script : List (Dir × CPrec × (ℕ → C))) :
+    mftRun (mftKern E cj Nx Ny Nu Nv x y u v w wOut) pre alloc script =
+      script.map fun s =>
+        match s.1 with
+        | .fwd => mftForward E Nx Ny Nu Nv x y u v w s.2.2
+        | .bwd => mftBackward E cj Nx Ny Nu Nv x y u v wOut s.2.2 := by
+  rw [mft_switch_independent]
+  exact List.map_congr_left fun s _ => mftKern_fresh E cj Nx Ny Nu Nv x y u v w wOut s.1 s.2.1 s.2.2
+
+/-- **MFT: every switch combination returns the defining sum.**  For every script, every
+`(precompute_matrices, allocate_intermediate)`, every weights branch (scalar / array), the `i`-th call of
+the reused object returns, at every in-range flat index, C01's defining double sum (`mftSumForward` /
+`mftSumBackward`, the executed right-hand sides of C01).  Rests on `mft_switch_independent_concrete` and
+on `mftForward_eq_mftSumForward` / `mftBackward_eq_mftSumBackward` (Lemmas/Mft.lean; C01 publishes them
+as `mft_eq_sum_2d`, `mft_eq_sum_2d_scalar`, `mft_backward_eq_sum_2d_weights`). -/
+theorem mft_branch_independent (hE : IsChar E) (cj : C → C) (hcj : ∀ a, cj (E a) = E (-a))
+    (Nx Ny Nu Nv : ℕ) (x y u v : ℕ → K) (w wOut : Weights C) (pre alloc : Bool)
+    (script : List (Dir × CPrec × (ℕ → C))) (i : ℕ) (d : Dir) (p : CPrec) (f : ℕ → C)
+    (hs : script[i]? = some (d, p, f)) :
+    ∃ r, (mftRun (mftKern E cj Nx Ny Nu Nv x y u v w wOut) pre alloc script)[i]? = some r ∧
+      match (generalizing := false) d with
+      | .fwd => ∀ k < Nv * Nu, r k = mftSumForward E Nx Ny Nu x y u v w f k
+      | .bwd => ∀ k < Ny * Nx, r k = mftSumBackward E Nx Nu Nv x y u v wOut f k := by
+  rw [mft_switch_independent_concrete, List.getElem?_map, hs]
+  refine ⟨_, rfl, ?_⟩
+  cases d
+  · intro k hk
+    exact mftForward_eq_mftSumForward hE Nx Ny Nu Nv x y u v w f hk
+  · intro k hk
+    exact mftBackward_eq_mftSumBackward hE cj hcj Nx Ny Nu Nv x y u v wOut f hk
+
+/-- satisfiability: `Complex.exp`, complex conjugation, a one-call script -/
+example : ∃ (E : ℝ → ℂ) (cj : ℂ → ℂ) (script : List (Dir × CPrec × (ℕ → ℂ))) (i : ℕ) (d : Dir)
+    (p : CPrec) (f : ℕ → ℂ), IsChar E ∧ (∀ a, cj (E a) = E (-a)) ∧ script[i]? = some (d, p, f) :=
+  ⟨expE, starRingEnd ℂ, [(.bwd, .c64, fun _ => 1)], 0, .bwd, .c64, fun _ => 1, expE_isChar, expE_conj, rfl⟩
+
+/-- hence any two settings of the two MFT switches give the same list of results (no hypothesis: this
+is already true before the sums are evaluated) -/
+theorem mft_switch_pair_independent (E : K → C) (cj : C → C) (Nx Ny Nu Nv : ℕ)
+    (x y u v : ℕ → K) (w wOut : Weights C) (pre1 alloc1 pre2 alloc2 : Bool)
+    (script : List (Dir × CPrec × (ℕ → C))) :
+    mftRun (mftKern E cj Nx Ny Nu Nv x y u v w wOut) pre1 alloc1 script
+      = mftRun (mftKern E cj Nx Ny Nu Nv x y u v w wOut) pre2 alloc2 script := by
+  rw [mft_switch_independent_concrete, mft_switch_independent_concrete]
+
+/-- **The weights branch of the MFT** (`if np.isscalar(weights)`: `alpha = w0` folded into the second
+`gemm`, or `field * weights` before the first) is not a configuration switch but the other
+data-dependent code path C01 models: on constant weights both branches return the same samples, forward
+and backward.  Rests on `C01.mft_eq_sum_2d`, `C01.mft_eq_sum_2d_scalar`,
+`C01.mft_backward_eq_sum_2d_weights`. -/
+theorem mft_weights_branch_independent (hE : IsChar E) (cj : C → C) (hcj : ∀ a, cj (E a) = E (-a))
+    (Nx Ny Nu Nv : ℕ) (x y u v : ℕ → K) (w0 : C) (f : ℕ → C) :
+    (∀ iu iv, iu < Nu → iv < Nv →
+      mftForward E Nx Ny Nu Nv x y u v (.scalar w0) f (iv * Nu + iu)
+        = mftForward E Nx Ny Nu Nv x y u v (.array fun _ => w0) f (iv * Nu + iu)) ∧
+    (∀ ix iy, ix < Nx →
+      mftBackward E cj Nx Ny Nu Nv x y u v (.scalar w0) f (iy * Nx + ix)
+        = mftBackward E cj Nx Ny Nu Nv x y u v (.array fun _ => w0) f (iy * Nx + ix)) := by
+  constructor
+  · intro iu iv hiu hiv
+    rw [C01.mft_eq_sum_2d_scalar hE Nx Ny Nu Nv x y u v w0 (fun _ => w0) f (fun _ => rfl) iu iv hiu hiv,
+      C01.mft_eq_sum_2d hE Nx Ny Nu Nv x y u v (fun _ => w0) f iu iv hiu hiv]
+  · intro ix iy hix
+    rw [C01.mft_backward_eq_sum_2d_weights hE cj hcj Nx Ny Nu Nv x y u v (.scalar w0) f ix iy hix,
+      C01.mft_backward_eq_sum_2d_weights hE cj hcj Nx Ny Nu Nv x y u v (.array fun _ => w0) f ix iy hix]
+    rfl
+
+example : ∃ (E : ℝ → ℂ) (cj : ℂ → ℂ), IsChar E ∧ ∀ a, cj (E a) = E (-a) :=
+  ⟨expE, starRingEnd ℂ, expE_isChar, expE_conj⟩
+
+/-- **`NaiveFourierTransform.precompute_matrices`** as a pair of code paths of C01's transform model:
+the list comprehension over output points (`False`) and the precomputed matrix (`True`) return the same
+sample, forward and backward, on arbitrary points in any number of dimensions.  Rests on
+`C01.naive_forward_eq_sum`, `C01.naive_backward_eq_sum`.  (The caching around it: `nft_switch_independent`.) -/
+theorem nft_precompute_branch_independent (E : K → C) (n m : ℕ) (us xs : List (ℕ → K))
+    (w wOut f F : ℕ → C) (k j : ℕ) :
+    nftForwardFly E n us xs w f k = nftForwardMat E n us xs w f k ∧
+    nftBackwardFly E m us xs wOut F j = nftBackwardMat E m us xs wOut F j := by
+  obtain ⟨h1, h2⟩ := C01.naive_forward_eq_sum (E := E) n us xs w f k
+  obtain ⟨h3, h4⟩ := C01.naive_backward_eq_sum (E := E) m us xs wOut F j
+  exact ⟨h1.trans h2.symm, h3.trans h4.symm⟩
+
+/-! ### all switches together -/
+
+/-- **No Fourier configuration switch changes a modelled result.**  For all values of
+`emulate_fftshifts` (`e1`, `e2`) and of `(precompute_matrices, allocate_intermediate)`
+(`(pre1, alloc1)`, `(pre2, alloc2)`): `FastFourierTransform.forward` and `.backward` (one axis; 2-D and
+`n`-D: `fft_emulate_switch_independent_2d`, `…_nd`) are the same function of the input, and every call
+script on a reused `MatrixFourierTransform` returns the same list of results.  Rests on
+`fft_emulate_switch_independent`, `fft_emulate_switch_independent_backward`,
+`mft_switch_pair_independent`. -/
+theorem fourier_config_independent (hT : IsChar T) (hE : IsChar E) (hper : ∀ n : ℤ, T (n : K) = 1)
+    (g : Cfg K C) (hN : g.N ≤ g.M) (hMo : g.Mo ≤ g.M) (hcons : g.dT * (g.M : K) * g.δ = 1)
+    (wo : C) (hw : wo * (g.M : C) * g.w = 1)
+    (cj : C → C) (Nx Ny Nu Nv : ℕ) (x y u v : ℕ → K) (w wOut : Weights C)
+    (e1 e2 pre1 alloc1 pre2 alloc2 : Bool) :
+    (∀ f k, k < g.Mo →
+      fastForward T E { g with emu := e1 } f k = fastForward T E { g with emu := e2 } f k) ∧
+    (∀ F j, j < g.N →
+      fastBackward T E { g with emu := e1 } F j = fastBackward T E { g with emu := e2 } F j) ∧
+    (∀ script, mftRun (mftKern E cj Nx Ny Nu Nv x y u v w wOut) pre1 alloc1 script
+      = mftRun (mftKern E cj Nx Ny Nu Nv x y u v w wOut) pre2 alloc2 script) :=
+  ⟨fun f k hk => fft_emulate_switch_independent hT hE hper g hN hMo hcons e1 e2 f k hk,
+    fun F j hj => fft_emulate_switch_independent_backward hT hE hper g hN hMo hcons wo hw e1 e2 F j hj,
+    fun script => mft_switch_pair_independent E cj Nx Ny Nu Nv x y u v w wOut pre1 alloc1 pre2 alloc2 script⟩
+
+example : ∃ (T E : ℝ → ℂ) (g : Cfg ℝ ℂ) (wo : ℂ), IsChar T ∧ IsChar E ∧
+    (∀ n : ℤ, T (n : ℝ) = 1) ∧ g.N ≤ g.M ∧ g.Mo ≤ g.M ∧ g.dT * (g.M : ℝ) * g.δ = 1 ∧
+    wo * (g.M : ℂ) * g.w = 1 :=
+  ⟨expT, expE, { N := 2, M := 4, Mo := 3, δ := 1 / 2, z := 0, dT := 1 / 2, s := 0, w := 1, emu := false },
+    1 / 4, expT_isChar, expE_isChar, expT_period, by norm_num, by norm_num, by norm_num, by norm_num⟩
+
+end abstract
+
+/-! ### `Complex.exp`, configuration out of `plan`: no hypothesis on sizes or spacings -/
+
+/-- **`emulate_fftshifts` on the FastFourierTransform that `plan` describes** (`Model/FftGrid.lean`, the
+sizes / cut-outs / output grid the real constructor reports), `T = exp(2πi·)`, `E = exp(i·)`: for every
+request the constructor accepts, every weight, the two settings of the switch give the same `forward`
+sample.  Rests on `C01.fast_forward_of_plan`. -/
+theorem fft_emulate_switch_independent_of_plan (a : AxisIn) (hN : 0 < a.N) (hδ : a.delta ≠ 0)
+    (hq : 1 ≤ a.q) (hf : a.fov ≤ 1) (w : ℂ) (e1 e2 : Bool) (f : ℕ → ℂ) (k : ℕ)
+    (hk : k < (plan a).Mo) :
+    fastForward expT expE (Cfg.ofPlanCast (Rat.castHom ℝ) (plan a) w e1) f k
+      = fastForward expT expE (Cfg.ofPlanCast (Rat.castHom ℝ) (plan a) w e2) f k := by
+  have h1 := C01.fast_forward_of_plan a hN hδ hq hf w e1 f k hk
+  have h2 := C01.fast_forward_of_plan a hN hδ hq hf w e2 f k hk
+  simp only at h1 h2
+  rw [h1, h2]
+  rfl
+
+/-- satisfiability (the D4 request `N = 87, q = 5/2`) -/
+example : ∃ a : AxisIn, 0 < a.N ∧ a.delta ≠ 0 ∧ 1 ≤ a.q ∧ a.fov ≤ 1 ∧ 0 < (plan a).Mo :=
+  ⟨⟨87, 1 / 4, -3, 5 / 2, 1, 0⟩, by decide +kernel, by decide +kernel, by decide +kernel,
+    by decide +kernel, by decide +kernel⟩
+
+/-- **Across implementations and switches** (`Complex.exp`, one axis): `FastFourierTransform.forward`
+with either setting of `emulate_fftshifts` equals `MatrixFourierTransform.forward` (ndim = 1, where
+neither MFT switch has any effect on the code path: `np.dot(M, f)`) on the same coordinates.  Rests on
+`C01.implementations_agree'`. -/
+theorem fft_any_switch_eq_mft (g : Cfg ℝ ℂ) (hN0 : 0 < g.N) (hN : g.N ≤ g.M) (hMo : g.Mo ≤ g.M)
+    (hcons : g.dT * (g.M : ℝ) * g.δ = 1) (e : Bool) (f : ℕ → ℂ) (k : ℕ) (hk : k < g.Mo) :
+    fastForward expT expE { g with emu := e } f k
+      = mftForward1 expE g.N g.x (fun k => 2 * Real.pi * g.a k + g.s) (.scalar g.w) f k :=
+  (C01.implementations_agree' { g with emu := e } hN0 hN hMo hcons (g.N + g.Mo - 1) le_rfl f k hk).1
+
+example : ∃ (g : Cfg ℝ ℂ) (k : ℕ), 0 < g.N ∧ g.N ≤ g.M ∧ g.Mo ≤ g.M ∧
+    g.dT * (g.M : ℝ) * g.δ = 1 ∧ k < g.Mo :=
+  ⟨{ N := 2, M := 4, Mo := 3, δ := 1 / 2, z := 0, dT := 1 / 2, s := 0, w := 1, emu := false },
+    2, by norm_num, by norm_num, by norm_num, by norm_num, by norm_num⟩
+
+end FourierConfig
+
+
+section References
+open HcipyVerif.FieldRef
+
+/-- `x[i] = v` writes through: `x` reads `v` at `i`; every variable whose window lies on the same buffer
+(alias, view, `asarray`, …) reads `v` exactly at the positions that look at the written cell and its old
+value elsewhere; every variable on another buffer reads what it read before (frame).  Any style. -/
+theorem write_through (sty : Sty) (s s' : State) (x i : Nat) (v : Int)
+    (h : step sty (.write x i v) s = some s') :
+    ∃ ox p, lookup s.vars x = some ox ∧ ox.idx[i]? = some p ∧
+      s'.vars = s.vars ∧ s'.grids = s.grids ∧
+      readVarAt s' x i = some v ∧
+      (∀ y oy, lookup s.vars y = some oy → oy.buf = ox.buf → ∀ j,
+        (oy.idx[j]? = some p → readVarAt s' y j = some v) ∧
+        (oy.idx[j]? ≠ some p → readVarAt s' y j = readVarAt s y j)) ∧
+      (∀ y oy, lookup s.vars y = some oy → oy.buf ≠ ox.buf →
+        readVar s' y = readVar s y ∧ ∀ j, readVarAt s' y j = readVarAt s y j) := by
+  obtain ⟨ox, p, w, hx, hp, hw, rfl⟩ := write_spec h
+  have key : ∀ y oy, lookup s.vars y = some oy → ∀ j,
+      readVarAt (withBufs s (setCell s.bufs ox.buf p v)) y j
+        = if oy.buf = ox.buf ∧ oy.idx[j]? = some p then some v else readVarAt s y j := by
+    intro y oy hy j
+    simp only [readVarAt, withBufs, hy]
+    exact readAt_setCell s.bufs ox.buf p v hw oy j
+  refine ⟨ox, p, hx, hp, rfl, rfl, ?_, ?_, ?_⟩
+  · rw [key x ox hx i]; simp [hp]
+  · intro y oy hy hb j
+    constructor
+    · intro hj; rw [key y oy hy j]; simp [hb, hj]
+    · intro hj; rw [key y oy hy j]; simp [hj]
+  · intro y oy hy hb
+    constructor
+    · simp only [readVar, withBufs, hy, values]
+      rw [read_setCell_other s.bufs ox.buf p v hw oy hb]
+    · intro j; rw [key y oy hy j]; simp [hb]
+
+example : step good (.write 0 1 9) ⟨[[1, 2, 3]], [7], [(0, ⟨0, [0, 1, 2], some 0⟩)]⟩
+    = some ⟨[[1, 9, 3]], [7], [(0, ⟨0, [0, 1, 2], some 0⟩)]⟩ := by decide
+
+/-- `x += v` writes through: every position of every variable on the same buffer whose cell lies in
+`x`'s window reads `+ v`, every other position (and every variable on another buffer) is unchanged. -/
+theorem iadd_through (sty : Sty) (s s' : State) (x : Nat) (v : Int)
+    (h : step sty (.iadd x v) s = some s') :
+    ∃ ox, lookup s.vars x = some ox ∧ s'.vars = s.vars ∧ s'.grids = s.grids ∧
+      (∀ j, readVarAt s' x j = (readVarAt s x j).map (· + v)) ∧
+      (∀ y oy, lookup s.vars y = some oy → oy.buf = ox.buf → ∀ j q, oy.idx[j]? = some q →
+        readVarAt s' y j = if q ∈ ox.idx then (readVarAt s y j).map (· + v) else readVarAt s y j) ∧
+      (∀ y oy, lookup s.vars y = some oy → oy.buf ≠ ox.buf →
+        readVar s' y = readVar s y ∧ ∀ j, readVarAt s' y j = readVarAt s y j) := by
+  simp only [step] at h
+  split at h
+  · rename_i ox hx
+    split at h
+    · cases h
+      have key : ∀ y oy, lookup s.vars y = some oy → ∀ j,
+          readVarAt (withBufs s (addCells s.bufs ox.buf ox.idx v)) y j
+            = if oy.buf = ox.buf ∧ (∃ q, oy.idx[j]? = some q ∧ q ∈ ox.idx)
+              then (readVarAt s y j).map (· + v) else readVarAt s y j := by
+        intro y oy hy j
+        simp only [readVarAt, withBufs, hy]
+        exact readAt_addCells s.bufs ox.buf ox.idx v oy j
+      refine ⟨ox, hx, rfl, rfl, ?_, ?_, ?_⟩
+      · intro j
+        rw [key x ox hx j]
+        cases hq : ox.idx[j]? with
+        | none => simp [readVarAt, hx, readAt, hq]
+        | some q =>
+          have : q ∈ ox.idx := List.mem_of_getElem? hq
+          simp [this]
+      · intro y oy hy hb j q hq
+        rw [key y oy hy j]
+        simp [hb, hq]
+      · intro y oy hy hb
+        constructor
+        · simp only [readVar, withBufs, hy, values]
+          rw [read_addCells_other s.bufs ox.buf ox.idx v oy hb]
+        · intro j; rw [key y oy hy j]; simp [hb]
+    · cases h
+  · cases h
+
+example : step good (.iadd 1 10) ⟨[[1, 2, 3]], [7], [(1, ⟨0, [0, 2], some 0⟩), (0, ⟨0, [0, 1, 2], some 0⟩)]⟩
+    = some ⟨[[11, 2, 13]], [7], [(1, ⟨0, [0, 2], some 0⟩), (0, ⟨0, [0, 1, 2], some 0⟩)]⟩ := by decide
+
+/-- After `y = x.copy()` (any style): `y` reads exactly what `x` read, `x` still reads the same, `y`'s
+buffer did not exist before (its id is the old `bufs.length`), `y`'s grid object is `x`'s grid object, no
+grid object is created, and every other variable keeps its object and its values. -/
+theorem copy_fresh_same_values (sty : Sty) (s s' : State) (y x : Nat)
+    (h : step sty (.copy y x) s = some s') :
+    ∃ ox oy vals, lookup s.vars x = some ox ∧ readVar s x = some vals ∧
+      lookup s'.vars y = some oy ∧ readVar s' y = some vals ∧ readVar s' x = some vals ∧
+      oy.buf = s.bufs.length ∧ s'.bufs.length = s.bufs.length + 1 ∧
+      oy.grid = ox.grid ∧ s'.grids = s.grids ∧
+      (∀ z, y ≠ z → lookup s'.vars z = lookup s.vars z ∧
+        ∀ w, readVar s z = some w → readVar s' z = some w) := by
+  simp only [step] at h
+  split at h
+  · rename_i ox hx
+    obtain ⟨vals, hv, rfl⟩ := copyOf_spec h
+    have hrx : readVar s x = some vals := by simp only [readVar, hx]; exact hv
+    refine ⟨ox, _, vals, hx, hrx, lookup_fresh_self _ _ _ _, readVar_fresh_self _ _ _ _, ?_,
+      rfl, by simp [fresh], rfl, rfl, ?_⟩
+    · by_cases hyx : y = x
+      · subst hyx; exact readVar_fresh_self _ _ _ _
+      · exact readVar_fresh_ne _ _ _ _ _ hyx hrx
+    · intro z hz
+      exact ⟨lookup_fresh_ne _ _ _ _ _ hz, fun w hw => readVar_fresh_ne _ _ _ _ _ hz hw⟩
+  · cases h
+
+example : step good (.copy 1 0) ⟨[[1, 2, 3]], [7], [(0, ⟨0, [0, 1, 2], some 0⟩)]⟩
+    = some ⟨[[1, 2, 3], [1, 2, 3]], [7],
+        [(1, ⟨1, [0, 1, 2], some 0⟩), (0, ⟨0, [0, 1, 2], some 0⟩)]⟩ := by decide
+
+/-- After `y = pickle.loads(pickle.dumps(x))` (any style): `y` reads exactly what `x` read, `x` still reads
+the same, `y`'s buffer is fresh, and — if `x` is a Field — `y`'s grid is a FRESH grid object (id = old
+`grids.length`) whose content equals the content of `x`'s grid; a bare array stays bare and no grid is
+created.  Every other variable keeps its object and its values. -/
+theorem pickle_fresh_buffer_fresh_equal_grid (sty : Sty) (s s' : State) (y x : Nat)
+    (h : step sty (.pickle y x) s = some s') :
+    ∃ ox oy vals, lookup s.vars x = some ox ∧ readVar s x = some vals ∧
+      lookup s'.vars y = some oy ∧ readVar s' y = some vals ∧ readVar s' x = some vals ∧
+      oy.buf = s.bufs.length ∧ s'.bufs.length = s.bufs.length + 1 ∧
+      (match ox.grid with
+        | some g => ∃ c, s.grids[g]? = some c ∧ oy.grid = some s.grids.length ∧
+            s'.grids = s.grids ++ [c] ∧ s'.grids[s.grids.length]? = some c
+        | none => oy.grid = none ∧ s'.grids = s.grids) ∧
+      (∀ z, y ≠ z → lookup s'.vars z = lookup s.vars z ∧
+        ∀ w, readVar s z = some w → readVar s' z = some w) := by
+  simp only [step] at h
+  split at h
+  · rename_i ox hx
+    split at h
+    · rename_i g hg
+      split at h
+      · rename_i c hc
+        obtain ⟨vals, hv, rfl⟩ := copyOf_spec h
+        have hrx : readVar (addGrid s c) x = some vals := by
+          simp only [readVar, addGrid, hx]; exact hv
+        refine ⟨ox, _, vals, hx, hrx, lookup_fresh_self _ _ _ _, readVar_fresh_self _ _ _ _, ?_,
+          rfl, by simp [fresh, addGrid], ?_, ?_⟩
+        · by_cases hyx : y = x
+          · subst hyx; exact readVar_fresh_self _ _ _ _
+          · exact readVar_fresh_ne _ _ _ _ _ hyx hrx
+        · rw [hg]
+          exact ⟨c, hc, rfl, rfl, by simp [fresh, addGrid]⟩
+        · intro z hz
+          exact ⟨lookup_fresh_ne (addGrid s c) _ _ _ _ hz,
+            fun w hw => readVar_fresh_ne (addGrid s c) _ _ _ _ hz hw⟩
+      · cases h
+    · rename_i hg
+      obtain ⟨vals, hv, rfl⟩ := copyOf_spec h
+      have hrx : readVar s x = some vals := by simp only [readVar, hx]; exact hv
+      refine ⟨ox, _, vals, hx, hrx, lookup_fresh_self _ _ _ _, readVar_fresh_self _ _ _ _, ?_,
+        rfl, by simp [fresh], ?_, ?_⟩
+      · by_cases hyx : y = x
+        · subst hyx; exact readVar_fresh_self _ _ _ _
+        · exact readVar_fresh_ne _ _ _ _ _ hyx hrx
+      · rw [hg]
+        exact ⟨rfl, rfl⟩
+      · intro z hz
+        exact ⟨lookup_fresh_ne _ _ _ _ _ hz, fun w hw => readVar_fresh_ne _ _ _ _ _ hz hw⟩
+  · cases h
+
+example : step good (.pickle 1 0) ⟨[[1, 2, 3]], [7], [(0, ⟨0, [0, 1, 2], some 0⟩)]⟩
+    = some ⟨[[1, 2, 3], [1, 2, 3]], [7, 7],
+        [(1, ⟨1, [0, 1, 2], some 1⟩), (0, ⟨0, [0, 1, 2], some 0⟩)]⟩ := by decide
+
+/-- Core of the independence statements: a variable bound to a fresh buffer is not affected by a later
+write through a variable that was readable before. -/
+theorem fresh_write_independent (sty : Sty) (s s2 : State) (y x : Nat) (vals : List Int)
+    (g : Option Nat) (i : Nat) (v : Int) (hxy : y ≠ x) {w : List Int} (hr : readVar s x = some w)
+    (h : step sty (.write x i v) (fresh s y vals g) = some s2) : readVar s2 y = some vals := by
+  obtain ⟨ox, p, a, hx, hp, ha, rfl⟩ := write_spec h
+  rw [lookup_fresh_ne s y vals g x hxy] at hx
+  have hv : values s.bufs ox = some w := by simpa only [readVar, hx] using hr
+  obtain ⟨a', ha', _⟩ := values_cell hv hp
+  have hlt : ox.buf < s.bufs.length := cell_some_lt ha'
+  have hne : (⟨s.bufs.length, List.range vals.length, g⟩ : Obj).buf ≠ ox.buf := by
+    simp only; omega
+  have := readVar_fresh_self s y vals g
+  simp only [readVar, withBufs, lookup_fresh_self, values] at this ⊢
+  rw [read_setCell_other _ ox.buf p v ha _ hne]
+  exact this
+
+/-- After `y = x.copy()` (`y ≠ x`) and a successful `x[i] = v`, `y` still reads the values `x` had at the
+time of the copy, i.e. what `y` read before the write. -/
+theorem copy_independent (sty : Sty) (s s2 : State) (y x i : Nat) (v : Int) (hxy : y ≠ x)
+    (h : run sty [.copy y x, .write x i v] s = .ok s2) :
+    ∃ s1 vals, step sty (.copy y x) s = some s1 ∧ readVar s x = some vals ∧
+      readVar s1 y = some vals ∧ readVar s2 y = some vals := by
+  obtain ⟨s1, h1, h2⟩ := run_two h
+  refine ⟨s1, ?_⟩
+  simp only [step] at h1
+  split at h1
+  · rename_i ox hx
+    obtain ⟨vals, hv, rfl⟩ := copyOf_spec h1
+    have hrx : readVar s x = some vals := by simp only [readVar, hx]; exact hv
+    exact ⟨vals, by simp only [step, hx, copyOf, hv], hrx, readVar_fresh_self _ _ _ _,
+      fresh_write_independent sty s s2 y x vals _ i v hxy hrx h2⟩
+  · cases h1
+
+example : run good [.copy 1 0, .write 0 0 9] ⟨[[1, 2, 3]], [7], [(0, ⟨0, [0, 1, 2], some 0⟩)]⟩
+    = .ok ⟨[[9, 2, 3], [1, 2, 3]], [7],
+        [(1, ⟨1, [0, 1, 2], some 0⟩), (0, ⟨0, [0, 1, 2], some 0⟩)]⟩ := rfl
+
+/-- After `y = pickle.loads(pickle.dumps(x))` (`y ≠ x`) and a successful `x[i] = v`, `y` still reads the
+values `x` had at pickling time. -/
+theorem pickle_independent (sty : Sty) (s s2 : State) (y x i : Nat) (v : Int) (hxy : y ≠ x)
+    (h : run sty [.pickle y x, .write x i v] s = .ok s2) :
+    ∃ s1 vals, step sty (.pickle y x) s = some s1 ∧ readVar s x = some vals ∧
+      readVar s1 y = some vals ∧ readVar s2 y = some vals := by
+  obtain ⟨s1, h1, h2⟩ := run_two h
+  refine ⟨s1, ?_⟩
+  have h1' := h1
+  simp only [step] at h1
+  split at h1
+  · rename_i ox hx
+    split at h1
+    · split at h1
+      · rename_i c hc
+        obtain ⟨vals, hv, rfl⟩ := copyOf_spec h1
+        have hrx : readVar (addGrid s c) x = some vals := by
+          simp only [readVar, addGrid, hx]; exact hv
+        exact ⟨vals, h1', hrx, readVar_fresh_self _ _ _ _,
+          fresh_write_independent sty (addGrid s c) s2 y x vals _ i v hxy hrx h2⟩
+      · cases h1
+    · obtain ⟨vals, hv, rfl⟩ := copyOf_spec h1
+      have hrx : readVar s x = some vals := by simp only [readVar, hx]; exact hv
+      exact ⟨vals, h1', hrx, readVar_fresh_self _ _ _ _,
+        fresh_write_independent sty s s2 y x vals _ i v hxy hrx h2⟩
+  · cases h1
+
+example : run good [.pickle 1 0, .write 0 0 9] ⟨[[1, 2, 3]], [7], [(0, ⟨0, [0, 1, 2], some 0⟩)]⟩
+    = .ok ⟨[[9, 2, 3], [1, 2, 3]], [7, 7],
+        [(1, ⟨1, [0, 1, 2], some 1⟩), (0, ⟨0, [0, 1, 2], some 0⟩)]⟩ := rfl
+
+/-- Under the intended style, after `y = np.array(x, dtype=x.dtype)` (`y ≠ x`) and a successful
+`x[i] = v`, `y` still reads the values `x` had before; `y` is a bare array on a fresh buffer. -/
+theorem array_independent (s s2 : State) (y x i : Nat) (v : Int) (hxy : y ≠ x)
+    (h : run good [.array y x, .write x i v] s = .ok s2) :
+    ∃ s1 vals, step good (.array y x) s = some s1 ∧ readVar s x = some vals ∧
+      readVar s1 y = some vals ∧ readVar s2 y = some vals ∧
+      lookup s1.vars y = some ⟨s.bufs.length, List.range vals.length, none⟩ := by
+  obtain ⟨s1, h1, h2⟩ := run_two h
+  refine ⟨s1, ?_⟩
+  have h1' := h1
+  simp only [step] at h1
+  split at h1
+  · rename_i ox hx
+    simp only [good, Bool.false_eq_true, if_false] at h1
+    obtain ⟨vals, hv, rfl⟩ := copyOf_spec h1
+    have hrx : readVar s x = some vals := by simp only [readVar, hx]; exact hv
+    exact ⟨vals, h1', hrx, readVar_fresh_self _ _ _ _,
+      fresh_write_independent good s s2 y x vals _ i v hxy hrx h2, lookup_fresh_self _ _ _ _⟩
+  · cases h1
+
+example : run good [.array 1 0, .write 0 0 9] ⟨[[1, 2, 3]], [7], [(0, ⟨0, [0, 1, 2], some 0⟩)]⟩
+    = .ok ⟨[[9, 2, 3], [1, 2, 3]], [7],
+        [(1, ⟨1, [0, 1, 2], none⟩), (0, ⟨0, [0, 1, 2], some 0⟩)]⟩ := rfl
+
+/-- Under the intended style a slice is a VIEW: after `y = x[start : start+step*len : step]` (`y ≠ x`) and a
+successful `x[start + k*step] = v` with `k < len`, `y` reads `v` at position `k`. -/
+theorem view_shares (s s2 : State) (y x start stp len i k : Nat) (v : Int) (hxy : y ≠ x)
+    (hi : i = start + k * stp) (hk : k < len)
+    (h : run good [.slice y x start stp len, .write x i v] s = .ok s2) :
+    readVarAt s2 y k = some v := by
+  obtain ⟨s1, h1, h2⟩ := run_two h
+  simp only [step] at h1
+  split at h1
+  · rename_i ox hx
+    split at h1
+    · cases h1
+    · split at h1
+      · rename_i idx' hidx
+        simp only [good, Bool.false_eq_true, if_false, Option.some.injEq] at h1
+        subst h1
+        obtain ⟨ox', p, w, hx', hp, hw, rfl⟩ := write_spec h2
+        simp only [HcipyVerif.FieldRef.bind] at hx' hw ⊢
+        rw [lookup_cons_ne _ _ _ _ hxy] at hx'
+        rw [hx] at hx'
+        cases hx'
+        obtain ⟨q, hq1, hq2⟩ := allSome_getElem? hidx k (by simpa using hk)
+        simp only [List.getElem?_map, List.getElem?_range hk, Option.map_some,
+          Option.some.injEq] at hq1
+        rw [← hi, hp] at hq1
+        cases hq1
+        simp only [readVarAt, withBufs, lookup_cons_self]
+        rw [readAt_setCell _ _ _ _ hw]
+        simp [hq2]
+      · cases h1
+  · cases h1
+
+example : run good [.slice 1 0 1 2 2, .write 0 3 9]
+      ⟨[[1, 2, 3, 4, 5]], [7], [(0, ⟨0, [0, 1, 2, 3, 4], some 0⟩)]⟩
+    = .ok ⟨[[1, 2, 3, 9, 5]], [7],
+        [(1, ⟨0, [1, 3], some 0⟩), (0, ⟨0, [0, 1, 2, 3, 4], some 0⟩)]⟩ := rfl
+
+/-- The script `f = Field([1,2,3,4], Grid(7)); g = f[0:2]; f[0] = 9`: a wrapper whose slices copy loses the write: the intended style makes the view read `9` at position
+`0`, the defective one leaves it at `1`. -/
+theorem Bad.slice_copy_loses_write :
+    (∃ s, run good [.new 0 7 [1, 2, 3, 4], .slice 1 0 0 1 2, .write 0 0 9] {} = .ok s ∧ readVar s 1 = some [9, 2] ∧ readVarAt s 1 0 = some 9) ∧
+    (∃ s, run badSlice [.new 0 7 [1, 2, 3, 4], .slice 1 0 0 1 2, .write 0 0 9] {} = .ok s ∧ readVar s 1 = some [1, 2] ∧ readVarAt s 1 0 = some 1) :=
+  ⟨⟨_, rfl, by decide, by decide⟩, ⟨_, rfl, by decide, by decide⟩⟩
+
+/-- The script `f = Field([1,2], Grid(7)); a = np.array(f, dtype=f.dtype); f[0] = 9` (seeded regression C19-8): a wrapper whose
+`np.array(f, dtype=f.dtype)` hands out the wrapped buffer follows later writes: the
+intended style leaves the array at `[1,2]`, the defective one makes it read `[9,2]`. -/
+theorem Bad.array_share_follows_write :
+    (∃ s, run good [.new 0 7 [1, 2], .array 1 0, .write 0 0 9] {} = .ok s ∧ readVar s 1 = some [1, 2]) ∧
+    (∃ s, run badArray [.new 0 7 [1, 2], .array 1 0, .write 0 0 9] {} = .ok s ∧ readVar s 1 = some [9, 2]) :=
+  ⟨⟨_, rfl, by decide⟩, ⟨_, rfl, by decide⟩⟩
+
+/-- `array_independent` fails for the defective wrapper (its conclusion, not only its proof). -/
+theorem Bad.array_independent_fails_badArray :
+    ∃ s s2 y x i v, y ≠ x ∧ run badArray [.array y x, .write x i v] s = .ok s2 ∧
+      readVar s2 y ≠ readVar s x :=
+  ⟨⟨[[1, 2]], [7], [(0, ⟨0, [0, 1], some 0⟩)]⟩, ⟨[[9, 2]], [7],
+    [(1, ⟨0, [0, 1], none⟩), (0, ⟨0, [0, 1], some 0⟩)]⟩, 1, 0, 0, 9, by decide, rfl, by decide⟩
+
+end References
+
+/-! ## The dispatch table of the running code (`Gen/FieldDispatch.lean`, regenerated on every run — tie T2)
+
+`harness/props/c19.py:regenerate` probes every NumPy ufunc (operand kinds, `out=`, `where=`, `reduce` /
+`accumulate` / `outer`, multi-output), the reductions with `axis` / `keepdims`, the index kinds of
+`__getitem__` / `__setitem__` and the public `ndarray` attributes on an `OldStyleField` and a `NewStyleField`
+of the running hcipy and writes what came back into `Gen.FieldDispatch.table` / `.attributes`.  The theorems
+below are proof obligations *over that regenerated table*: an operation that the wrapper does not handle, or
+re-wraps differently from the policies the two interpreters execute, makes them fail at build time — whether
+or not a random program happens to use it.  The driver runs the same checks (`C19 dispatch`). -/
+section Dispatch
+open HcipyVerif.FieldDispatch
+
+/-- **every probed operation is handled as the model's wrapping policies say, under both routes**: the kind of
+object the running `OldStyleField` / `NewStyleField` handed back equals `predict oldPolicy` / `predict
+newPolicy` — the rules `fnTag`, `Policy.ufunc`, `Policy.reduce`, `Policy.func`, `getitemTag` that `runO` /
+`runN` execute.  (A finite table, regenerated from the running code; `decide`.) -/
+theorem dispatch_table_handled_as_model :
+    ∀ e ∈ Gen.FieldDispatch.table, e.old = predict oldPolicy e ∧ e.new = predict newPolicy e := by
+  decide +kernel
+
+/-- **every elementwise operation of the table returns a result attached to the same grid, under both
+styles** (ufuncs incl. `out=`, `where=`, `accumulate`, `outer`, multi-output; a Field operand in any position;
+non-0-d result) -/
+theorem dispatch_elementwise_same_grid :
+    ∀ e ∈ Gen.FieldDispatch.table, elementwise e = true → keepsGrid e.old = true ∧ keepsGrid e.new = true := by
+  decide +kernel
+
+/-- the same for *any* entry that is handled as the model says — not only the probed ones: the policies attach
+the grid of the leftmost Field operand to every elementwise result (unbounded: any operand list) -/
+theorem elementwise_entry_keeps_grid (e : Entry) (h : elementwise e = true) :
+    keepsGrid (predict oldPolicy e) = true ∧ keepsGrid (predict newPolicy e) = true := by
+  obtain ⟨name, kind, args, zeroD, o, n⟩ := e
+  simp only [elementwise, Bool.and_eq_true, Bool.or_eq_true, beq_iff_eq, Bool.not_eq_true'] at h
+  obtain ⟨⟨hk, hg⟩, hz⟩ := h
+  subst hz
+  rcases hk with rfl | rfl <;>
+    simp [predict, fnTag, oldPolicy, newPolicy, hg, probeArr, obsOfTag, tupleOf, keepsGrid]
+
+example : elementwise ⟨"add(a,f)", .fn .ufunc, [.plain, .field 0], false, .field, .field⟩ = true := by decide
+
+/-- **the two styles differ only where the model says they do**: on 0-d results (scalar vs 0-d Field) and on
+NumPy functions that drop subclasses (`np.where`, `np.copy`); every other probed operation returns the same kind
+of object under both styles -/
+theorem dispatch_styles_differ_only_where_stated :
+    ∀ e ∈ Gen.FieldDispatch.table, e.old = e.new ∨ e.zeroD = true ∨ e.kind = .fn .func := by
+  decide +kernel
+
+/-- **no operation is missing on the wrapper**: no probed entry raises under either style, `__setitem__` writes
+for every index kind, and every public `ndarray` attribute of an old-style Field exists on a new-style Field
+except the listed layout / raw-bytes / file / device attributes (`knownMissing`) -/
+theorem dispatch_nothing_missing :
+    (∀ e ∈ Gen.FieldDispatch.table, e.old ≠ .raised ∧ e.new ≠ .raised ∧ (e.kind = .setitem → e.old = .wrote ∧ e.new = .wrote)) ∧
+    (∀ a ∈ Gen.FieldDispatch.attributes, attrOk a = true) := by
+  constructor <;> decide +kernel
+
+end Dispatch
 
 end HcipyVerif.C19
